@@ -119,6 +119,9 @@ TraceReply ==
        \/ Ev.class = "perr" /\ ParseError(Ev.r)
     /\ Consume /\ UNCHANGED lastDo
 
+\* a request the recorder gave up on (reported separately as a liveness violation); the rest of the trace is still validated
+TraceUnanswered == Is("Unanswered") /\ Consume /\ UNCHANGED <<vars, lastDo>>
+
 \* ---- silent steps, enabled only when the next recorded event needs them
 NeedsObserve(p) ==
     /\ More
@@ -135,7 +138,7 @@ SilentFlush ==
 
 TraceNext ==
     \/ TraceReset \/ TraceParse \/ TraceAppend \/ TraceConnFail \/ TraceSwap \/ TraceDoCall
-    \/ TraceDoRet \/ TraceRelease \/ TraceReply \/ SilentObserve \/ SilentFlush
+    \/ TraceDoRet \/ TraceRelease \/ TraceReply \/ TraceUnanswered \/ SilentObserve \/ SilentFlush
 
 TraceSpec == TraceInit /\ [][TraceNext]_tvars
 
